@@ -90,7 +90,7 @@ def run(run):
         if klen is not None and klen != deg + 6 + 1 and deg > 1:
             run.notes.append(f"trim({deg}) keeps {klen} powers")
     # ---- openings: honest aggregate witness passes, and the acceptance polynomial is the textbook one
-    shapes = [(2, 1, 2), (2, 2, 3), (4, 3, 3)] if quick else [(2, 1, 2), (2, 2, 3), (4, 3, 3), (4, 3, 5), (8, 3, 6)]
+    shapes = [(2, 1, 2), (2, 2, 3), (4, 3, 3)] if quick else [(2, 1, 2), (2, 2, 3), (4, 3, 3), (4, 2, 5), (8, 2, 6), (8, 3, 4)]
     for deg, npol, ln in shapes:
         # flips are limited to the leading-coefficient tests of the input polynomials (the first
         # npol*ln symbolic comparisons): every pattern of zero / shorter polynomials is explored
@@ -154,7 +154,7 @@ def run(run):
             for k2, c in enumerate(forced):
                 run.identity(f"{tag}/honest-accepted/identity{k2}", S(nodes[c["a"]]), S(nodes[c["b"]]))
     # ---- batch_check on arbitrary triples: acceptance polynomial == textbook; every evaluation bound
-    for k in ([1, 2] if quick else [1, 2, 3, 4]):
+    for k in ([1, 2, 3] if quick else [1, 2, 3, 4, 5]):
         sb, ctx, nodes = load(run, ["batch", k])
         P = sb["outputs"]["batch"]
         acc = [p for p in P["paths"] if p["result"] and p["result"]["check"] == "Ok(())"]
@@ -179,7 +179,31 @@ def run(run):
         for j in range(k):
             w, e, cm, zj = ctx.var(f"w{j}"), ctx.var(f"e{j}"), ctx.var(f"c{j}"), ctx.var(f"z{j}")
             spec = spec + (u ** j) * ((cm + zj * w - e * g) * h - w * xh)
-        run.identity(f"{tag}/acceptance==spec", V, spec)
+        def batch_replay(model, V=V, spec=spec, k=k):
+            """concrete batches (i) accepted by the real polynomial, (ii) accepted by the spec: the real
+            batch_check (concrete arithmetic, scripted challenge) must agree with the spec on both"""
+            import random
+            from checks.verifier_common import solve_linear, scripted_at
+            rnd = random.Random(run.seed * 31 + k)
+            names = smt.variables([V, spec])
+            trials = []
+            for t in range(3):
+                env = {n: rnd.randrange(2, R) for n in names}
+                for which, root in (("real", V), ("spec", spec)):
+                    e0 = solve_linear(root, env, "e0")
+                    if e0 is None:
+                        continue
+                    e2 = dict(env, e0=e0)
+                    henv = {n: "%064x" % v for n, v in e2.items()}
+                    rb = scripted_at(["kzg", "batch", str(k)], henv, run.seed)
+                    res = rb["outputs"]["batch"]["paths"][0]["result"]
+                    got_ok = bool(res) and res.get("check") == "Ok(())"
+                    spec_ok = smt.evaluate([spec], e2)[spec.id] == 0
+                    trials.append({"constructed_for": which, "batch_check": res and res.get("check"), "spec_accepts": spec_ok})
+                    if got_ok != spec_ok:
+                        return True, {"env": henv, "driver": ["kzg", "batch", str(k)], "trials": trials}
+            return False, {"trials": trials}
+        run.identity(f"{tag}/acceptance==spec", V, spec, replay=batch_replay)
         for j in range(k):
             for nm in (f"e{j}", f"w{j}", f"c{j}", f"z{j}"):
                 coeff = xe.subst(ctx, [V], {nm: ctx.var(nm) + 1})[0] - V
@@ -209,7 +233,7 @@ def run(run):
                                           and "ProofVerificationError" not in p["result"]["check"]):
                 run.violations.append((f"batch/mismatch/{k}-{kp}", _w(run, f"batch{k}_{kp}", str(p)[:500])))
     run.bounds.append(f"SRS degrees {degs}; commitments of lengths 0,1,2,deg+6..deg+8; aggregated openings {shapes}; "
-                      "batches of size 1..2 (thorough 1..4) plus empty/mismatched; ALL values of the secret, bases, "
+                      "batches of size 1..3 (thorough 1..5) plus empty/mismatched; ALL values of the secret, bases, "
                       "coefficients, points, evaluations, witnesses and challenges")
     run.outside.append("trim/truncate capacity arithmetic for all sizes is decided in C01/C15 (bit-vector "
                        "translation); security of KZG (binding) is the standard assumption")
